@@ -10,8 +10,8 @@ use std::str::FromStr;
 
 pub fn lanes() -> Vec<Lane> {
     vec![
-        Lane { name: "histories", count: |c| if c.thorough() { 500_000 } else { 40_000 }, run: hist_lane },
-        Lane { name: "built", count: |c| if c.thorough() { 200_000 } else { 15_000 }, run: built_lane },
+        Lane { name: "histories", count: |c| if c.thorough() { 1_000_000 } else { 150_000 }, run: hist_lane },
+        Lane { name: "built", count: |c| if c.thorough() { 400_000 } else { 60_000 }, run: built_lane },
         Lane { name: "catalog", count: |c| CAT_DOCS.len() as u64 * if c.thorough() { 60 * 60 * 60 + 60 * 60 + 60 } else { 60 * 60 + 60 }, run: catalog_lane },
     ]
 }
